@@ -151,8 +151,8 @@ def render(i, s):
         i, tyc, "true" if lazy else "false", arity, k, finc, MATCH[mk][1] if mk else "M_NONE", "true" if w else "false", nfx,
         TIMES[tm][1], TIMES[tm][2], TIMES[tm][3], "true" if seq else "false", "true" if b_first else "false",
         {"PLAIN": "B_PLAIN", "CORO": "B_CORO", None: "B_NONE"}[bk], b_arity, b_k, text)
-    return ("#if Q_HAS(%d)\nvoid s%d(Ctx& c) { static const SiteInfo I%s; if (c.begin(I)) return; SITE_PROLOGUE; %s "
-            "c.drive(eA.get(), %s, %s, %s); }\n#endif" % (i, i, info, exps.strip(), call_expr(arity, ty, lazy), eB, callB))
+    return ("#if Q_HAS(%d)\nstatic void s%d(Ctx& c) { static const SiteInfo I%s; if (c.begin(I)) return; SITE_PROLOGUE(MK_%s_%s); %s "
+            "c.drive(eA.get(), %s, %s, %s); }\nstatic const Reg r%d{%d, &s%d};\n#endif" % (i, i, info, ty, "l" if lazy else "e", exps.strip(), call_expr(arity, ty, lazy), eB, callB, i, i, i))
 
 
 def build_sites():
@@ -218,9 +218,8 @@ def build_sites():
 
 def main():
     sites = build_sites()
-    lines = ["void %s;" % ", ".join("s%d(Ctx&)" % i for i in range(len(sites)))]
+    lines = ["#define Q_NSITES %d" % len(sites), "inline SiteFn* site_table() { static SiteFn t[Q_NSITES] = {}; return t; }"]
     lines += [render(i, s) for i, s in enumerate(sites)]
-    lines.append("#if Q_PART == 0\nstatic void (*const g_sites[])(Ctx&) = {%s};\n#endif" % ", ".join("s%d" % i for i in range(len(sites))))
     path = os.path.join(HERE, "q_main.cpp")
     src = open(path).read()
     a = src.index("// BEGIN GENERATED SITES")
